@@ -132,9 +132,22 @@ def r3_errors_consulted(ctx):
     errors_consulted(ctx)
 
 
+def _more(name):
+    def run(ctx):
+        from . import more
+
+        getattr(more, name)(ctx)
+
+    run.__name__ = name
+    return run
+
+
 RULES = [
     ("C04.R1", "P1", r1_store_key_is_lookup_key, "store key = lookup key"),
     ("C04.R2", "P1", r2_cached_values_never_mutated, "cached values are never mutated"),
     ("C04.R3", "P1", r3_errors_consulted, "remembered errors are consulted where they are written for"),
     ("C04.R4", "P1", r4_only_cache_classes_write_cache, "only the cache classes write cache entries"),
+    ("C04.R5", "P1", _more("recompiler_globals_are_unique"), "globals planted by the re-compiler are named uniquely"),
+    ("C04.R6", "P1", _more("call_paths_keep_no_state"), "per-call methods of the function object keep no state"),
+    ("C04.R7", "P1", _more("resolution_always_ranks"), "resolution never returns before ranking"),
 ]
